@@ -44,11 +44,24 @@ func Sprites(r *rig.Rng) *Program {
 	io(0x48, 0xe4)
 	io(0x49, 0x1b)
 	lcdc := uint8(0x93) // LCD on, BG on, objects on
-	if r.Bool() {
+	if r.Chance(2, 3) {
 		// and the window over part of the screen
 		io(0x4a, uint8(r.Intn(120)))
 		io(0x4b, uint8(7+r.Intn(140)))
 		lcdc |= 0x20
+		// what the window shows depends on the window line: a tile whose eight rows all differ,
+		// and other tiles in the rows below it
+		emit(0x21, 0x50, 0x80) // LD HL,8050 (tile 5)
+		for row := uint(0); row < 8; row++ {
+			emit(0x36, 1<<row, 0x23, 0x36, 0xff>>row, 0x23)
+		}
+		for row := 0; row < 18; row++ {
+			a := 0x9800 + 32*row
+			emit(0x21, uint8(a), uint8(a>>8))
+			for col := 0; col < 4; col++ {
+				emit(0x36, uint8(5-(row+col)%3), 0x23) // tiles 5, 4, 3
+			}
+		}
 	}
 	io(0x40, lcdc)
 	emit(0x18, 0xfe) // JR -2
